@@ -60,7 +60,8 @@ Record oracle := mkOracle {
   o_new_upload : bool;        (* NewUpload fails (begin / read / insert / commit of the ID transaction) *)
   o_fs : nat -> bool;         (* the n-th file-store operation of this request fails
                                  (create, every header write, every body write, close — counted in order) *)
-  o_flush : bool;             (* flush of the buffered rows fails *)
+  o_midflush : N -> bool;     (* a flush at the 990-argument boundary fails while part i is being read *)
+  o_flush : bool;             (* flush of the buffered rows at Commit fails *)
   o_commit : bool }.          (* commit of the records transaction fails *)
 
 Fixpoint any_fail (f : nat -> bool) (from n : nat) : bool :=
@@ -99,6 +100,8 @@ Definition index_file (o : oracle) (w : fsw) (id : bytes) (i : N) (user tm name 
   (* body tee-writes *)
   if any_fail (o_fs o) ops2 nwrites then (mkFsw (fw_fs w) (ops2 + nwrites), FErr) else
   let ops3 := ops2 + nwrites in
+  (* InsertRecord fails: a flush forced by the 990-argument limit was refused *)
+  if o_midflush o i then (mkFsw (fw_fs w) ops3, FErr) else
   (* read error of the request body *)
   if cut then (mkFsw (fw_fs w) ops3, FErr) else
   let rs := parse_file m body in
